@@ -8,6 +8,7 @@ package main
 import (
 	"context"
 	"fmt"
+	"reflect"
 	"go/ast"
 	"go/parser"
 	"go/token"
@@ -43,6 +44,12 @@ type instance struct {
 	Pull func(ctx context.Context, mask *fieldmaskpb.FieldMask) <-chan proto.Message
 	// Write (optional) performs ONE stored change (at most one event for a subscriber).
 	Write func(g *mt.Gen)
+	// Stream (optional) opens the server-streaming Pull RPC of the same service through the in-process
+	// wrapper with the mask (updates_only off) and returns the client stream (has Recv); StreamName names
+	// the RPC; Seeds is the number of values the stream delivers before it waits for changes.
+	Stream     func(ctx context.Context, mask *fieldmaskpb.FieldMask) (any, error)
+	StreamName string
+	Seeds      func() int
 }
 
 // creader is one trait-level reader; Funcs names the source functions it drives (package.Func), used to
@@ -159,6 +166,11 @@ var creaders = []creader{
 				Read: func(mask *fieldmaskpb.FieldMask) []proto.Message {
 					return []proto.Message{must(s.GetPositions(bg, &traits.GetOpenClosePositionsRequest{Name: "dev", ReadMask: mask}))}
 				},
+				StreamName: "openclosepb.ModelServer.PullPositions",
+				Stream: func(ctx context.Context, mask *fieldmaskpb.FieldMask) (any, error) {
+					return openclosepb.WrapApi(s).PullPositions(ctx, &traits.PullOpenClosePositionsRequest{Name: "dev", ReadMask: mask})
+				},
+				Seeds: func() int { return 1 },
 				Write: openCloseWrite(m),
 			}
 		}},
@@ -203,10 +215,16 @@ var creaders = []creader{
 				must(m.CreateMode(x))
 			}
 			s := electricpb.NewModelServer(m)
-			return &instance{Read: func(mask *fieldmaskpb.FieldMask) []proto.Message {
+			inst := &instance{Read: func(mask *fieldmaskpb.FieldMask) []proto.Message {
 				r, err := s.ListModes(bg, &traits.ListModesRequest{Name: "dev", ReadMask: mask})
 				return pageOf(r.GetModes(), err)
 			}}
+			inst.StreamName = "electricpb.ModelServer.PullModes"
+			inst.Stream = func(ctx context.Context, mask *fieldmaskpb.FieldMask) (any, error) {
+				return electricpb.WrapApi(s).PullModes(ctx, &traits.PullModesRequest{Name: "dev", ReadMask: mask})
+			}
+			inst.Seeds = func() int { return len(inst.Read(nil)) }
+			return inst
 		}},
 	{"hailpb.ModelServer.ListHails", func() proto.Message { return &traits.Hail{} },
 		[]string{"hailpb.ListHails"},
@@ -219,10 +237,16 @@ var creaders = []creader{
 				must(m.CreateHail(x))
 			}
 			s := hailpb.NewModelServer(m)
-			return &instance{Read: func(mask *fieldmaskpb.FieldMask) []proto.Message {
+			inst := &instance{Read: func(mask *fieldmaskpb.FieldMask) []proto.Message {
 				r, err := s.ListHails(bg, &traits.ListHailsRequest{Name: "dev", ReadMask: mask})
 				return pageOf(r.GetHails(), err)
 			}}
+			inst.StreamName = "hailpb.ModelServer.PullHails"
+			inst.Stream = func(ctx context.Context, mask *fieldmaskpb.FieldMask) (any, error) {
+				return hailpb.WrapApi(s).PullHails(ctx, &traits.PullHailsRequest{Name: "dev", ReadMask: mask})
+			}
+			inst.Seeds = func() int { return len(inst.Read(nil)) }
+			return inst
 		}},
 	{"publicationpb.ModelServer.ListPublications", func() proto.Message { return &traits.Publication{} },
 		[]string{"publicationpb.ListPublications"},
@@ -235,10 +259,16 @@ var creaders = []creader{
 				must(m.CreatePublication(x))
 			}
 			s := publicationpb.NewModelServer(m)
-			return &instance{Read: func(mask *fieldmaskpb.FieldMask) []proto.Message {
+			inst := &instance{Read: func(mask *fieldmaskpb.FieldMask) []proto.Message {
 				r, err := s.ListPublications(bg, &traits.ListPublicationsRequest{Name: "dev", ReadMask: mask})
 				return pageOf(r.GetPublications(), err)
 			}}
+			inst.StreamName = "publicationpb.ModelServer.PullPublications"
+			inst.Stream = func(ctx context.Context, mask *fieldmaskpb.FieldMask) (any, error) {
+				return publicationpb.WrapApi(s).PullPublications(ctx, &traits.PullPublicationsRequest{Name: "dev", ReadMask: mask})
+			}
+			inst.Seeds = func() int { return len(inst.Read(nil)) }
+			return inst
 		}},
 	{"vendingpb.ModelServer.ListConsumables", func() proto.Message { return &traits.Consumable{} },
 		[]string{"vendingpb.ListConsumables"},
@@ -251,10 +281,16 @@ var creaders = []creader{
 				must(m.CreateConsumable(x))
 			}
 			s := vendingpb.NewModelServer(m)
-			return &instance{Read: func(mask *fieldmaskpb.FieldMask) []proto.Message {
+			inst := &instance{Read: func(mask *fieldmaskpb.FieldMask) []proto.Message {
 				r, err := s.ListConsumables(bg, &traits.ListConsumablesRequest{Name: "dev", ReadMask: mask})
 				return pageOf(r.GetConsumables(), err)
 			}}
+			inst.StreamName = "vendingpb.ModelServer.PullConsumables"
+			inst.Stream = func(ctx context.Context, mask *fieldmaskpb.FieldMask) (any, error) {
+				return vendingpb.WrapApi(s).PullConsumables(ctx, &traits.PullConsumablesRequest{Name: "dev", ReadMask: mask})
+			}
+			inst.Seeds = func() int { return len(inst.Read(nil)) }
+			return inst
 		}},
 	{"vendingpb.ModelServer.ListInventory", func() proto.Message { return &traits.Consumable_Stock{} },
 		[]string{"vendingpb.ListInventory"},
@@ -267,10 +303,16 @@ var creaders = []creader{
 				must(m.CreateStock(x))
 			}
 			s := vendingpb.NewModelServer(m)
-			return &instance{Read: func(mask *fieldmaskpb.FieldMask) []proto.Message {
+			inst := &instance{Read: func(mask *fieldmaskpb.FieldMask) []proto.Message {
 				r, err := s.ListInventory(bg, &traits.ListInventoryRequest{Name: "dev", ReadMask: mask})
 				return pageOf(r.GetInventory(), err)
 			}}
+			inst.StreamName = "vendingpb.ModelServer.PullInventory"
+			inst.Stream = func(ctx context.Context, mask *fieldmaskpb.FieldMask) (any, error) {
+				return vendingpb.WrapApi(s).PullInventory(ctx, &traits.PullInventoryRequest{Name: "dev", ReadMask: mask})
+			}
+			inst.Seeds = func() int { return len(inst.Read(nil)) }
+			return inst
 		}},
 	{"parentpb.ModelServer.ListChildren", func() proto.Message { return &traits.Child{} },
 		[]string{"parentpb.ListChildren"},
@@ -284,10 +326,16 @@ var creaders = []creader{
 				m.AddChild(x)
 			}
 			s := parentpb.NewModelServer(m)
-			return &instance{Read: func(mask *fieldmaskpb.FieldMask) []proto.Message {
+			inst := &instance{Read: func(mask *fieldmaskpb.FieldMask) []proto.Message {
 				r, err := s.ListChildren(bg, &traits.ListChildrenRequest{Name: "dev", ReadMask: mask})
 				return pageOf(r.GetChildren(), err)
 			}}
+			inst.StreamName = "parentpb.ModelServer.PullChildren"
+			inst.Stream = func(ctx context.Context, mask *fieldmaskpb.FieldMask) (any, error) {
+				return parentpb.WrapApi(s).PullChildren(ctx, &traits.PullChildrenRequest{Name: "dev", ReadMask: mask})
+			}
+			inst.Seeds = func() int { return len(inst.Read(nil)) }
+			return inst
 		}},
 	{"bookingpb.ModelServer.ListBookings", func() proto.Message { return &traits.Booking{} },
 		[]string{"bookingpb.ListBookings"},
@@ -300,13 +348,19 @@ var creaders = []creader{
 				must(m.CreateBooking(x))
 			}
 			s := bookingpb.NewModelServer(m)
-			return &instance{Read: func(mask *fieldmaskpb.FieldMask) []proto.Message {
+			inst := &instance{Read: func(mask *fieldmaskpb.FieldMask) []proto.Message {
 				r, err := s.ListBookings(bg, &traits.ListBookingsRequest{Name: "dev", ReadMask: mask})
 				return pageOf(r.GetBookings(), err)
 			}}
+			inst.StreamName = "bookingpb.ModelServer.PullBookings"
+			inst.Stream = func(ctx context.Context, mask *fieldmaskpb.FieldMask) (any, error) {
+				return bookingpb.WrapApi(s).PullBookings(ctx, &traits.ListBookingsRequest{Name: "dev", ReadMask: mask})
+			}
+			inst.Seeds = func() int { return len(inst.Read(nil)) }
+			return inst
 		}},
 	{"wastepb.ModelServer.ListWasteRecords", func() proto.Message { return &traits.WasteRecord{} },
-		[]string{"wastepb.ListWasteRecords"},
+		[]string{"wastepb.ListWasteRecords", "wastepb.pullWasteRecordsWrapper"},
 		func(g *mt.Gen) *instance {
 			m := wastepb.NewModel() // comes with generated records
 			for i, n := 0, 1+g.R.Intn(2); i < n; i++ {
@@ -316,10 +370,16 @@ var creaders = []creader{
 				must(m.AddWasteRecord(x))
 			}
 			s := wastepb.NewModelServer(m)
-			return &instance{Read: func(mask *fieldmaskpb.FieldMask) []proto.Message {
+			inst := &instance{Read: func(mask *fieldmaskpb.FieldMask) []proto.Message {
 				r, err := s.ListWasteRecords(bg, &traits.ListWasteRecordsRequest{Name: "dev", ReadMask: mask, PageSize: 4})
 				return pageOf(r.GetWasteRecords(), err)
 			}}
+			inst.StreamName = "wastepb.ModelServer.PullWasteRecords"
+			inst.Stream = func(ctx context.Context, mask *fieldmaskpb.FieldMask) (any, error) {
+				return wastepb.WrapApi(s).PullWasteRecords(ctx, &traits.PullWasteRecordsRequest{Name: "dev", ReadMask: mask})
+			}
+			inst.Seeds = func() int { n := m.GetWasteRecordCount(); if n > 50 { n = 50 }; return n }
+			return inst
 		}},
 }
 
@@ -385,6 +445,21 @@ func (c ccase) run() cout {
 			c.runPull(g, inst, &out)
 			return
 		}
+		if c.Mode == "seeds" {
+			n := inst.Seeds()
+			before := cloneAll(inst.Read(nil))
+			out.Raw = collectSeeds(inst, nil, n, &out)
+			if out.Stream == "" {
+				out.Got = collectSeeds(inst, fm, n, &out)
+			}
+			for i := range out.Got {
+				out.Roles = append(out.Roles, fmt.Sprintf("seed%d", i))
+			}
+			if after := inst.Read(nil); canonAll(after) != canonAll(before) {
+				out.Mutated = "the unmasked read after the masked subscription delivered its seeds differs from the one before: " + canonAll(before) + " -> " + canonAll(after)
+			}
+			return
+		}
 		rawObjs := inst.Read(nil)
 		raw := cloneAll(rawObjs)
 		// an earlier masked result with another mask, kept: must not change either
@@ -420,6 +495,76 @@ func (c ccase) run() cout {
 		out.Panic = pmsg
 	}
 	return out
+}
+
+// collectSeeds opens the server-streaming Pull RPC with the mask and returns the first n values it
+// delivers (the `new_value` / resource field of every change, in order).
+func collectSeeds(inst *instance, mask *fieldmaskpb.FieldMask, n int, out *cout) []proto.Message {
+	ctx, cancel := context.WithCancel(bg)
+	defer cancel()
+	st, err := inst.Stream(ctx, mask)
+	if err != nil {
+		out.Stream = "opening the stream failed: " + err.Error()
+		return nil
+	}
+	recv := reflect.ValueOf(st).MethodByName("Recv")
+	type item struct {
+		m   proto.Message
+		err string
+	}
+	ch := make(chan item)
+	go func() {
+		defer close(ch)
+		for {
+			rs := recv.Call(nil)
+			if !rs[1].IsNil() {
+				select {
+				case ch <- item{err: rs[1].Interface().(error).Error()}:
+				case <-ctx.Done():
+				}
+				return
+			}
+			resp := rs[0].Interface().(proto.Message).ProtoReflect()
+			changes := resp.Get(resp.Descriptor().Fields().ByName("changes")).List()
+			for i := 0; i < changes.Len(); i++ {
+				chg := changes.Get(i).Message()
+				fd := chg.Descriptor().Fields().ByName("new_value")
+				if fd == nil { // the resource field of a single-resource change: the only message field besides change_time
+					for j := 0; j < chg.Descriptor().Fields().Len(); j++ {
+						if f := chg.Descriptor().Fields().Get(j); f.Message() != nil && f.Name() != "change_time" {
+							fd = f
+						}
+					}
+				}
+				var m proto.Message
+				if chg.Has(fd) {
+					m = proto.Clone(chg.Get(fd).Message().Interface())
+				} else {
+					m = chg.Get(fd).Message().New().Interface() // an unset value reads as the empty message
+				}
+				select {
+				case ch <- item{m: m}:
+				case <-ctx.Done():
+					return
+				}
+			}
+		}
+	}()
+	var got []proto.Message
+	for len(got) < n {
+		select {
+		case it, ok := <-ch:
+			if !ok || it.err != "" {
+				out.Stream = fmt.Sprintf("the stream ended after %d of %d seed values: %s", len(got), n, it.err)
+				return got
+			}
+			got = append(got, it.m)
+		case <-time.After(waitFor):
+			out.Stream = fmt.Sprintf("only %d of %d seed values within %s", len(got), n, waitFor)
+			return got
+		}
+	}
+	return got
 }
 
 // runPull: subscribe with the mask, then single stored changes; after each step the subscriber must hold
@@ -479,6 +624,9 @@ func (c ccase) runPull(g *mt.Gen, inst *instance, out *cout) {
 func (c ccase) monitor(mon *lib.Monitor, out cout) {
 	r, _ := readerByName(c.Reader)
 	site := "C06/" + c.Reader
+	if c.Mode == "seeds" {
+		site = "C06/" + r.Build(&mt.Gen{R: lib.NewRand(1)}).StreamName
+	}
 	md := r.Item().ProtoReflect().Descriptor()
 	sensible := true
 	for _, p := range c.Mask.Paths {
@@ -528,7 +676,11 @@ func runComposed(cases []ccase, tie *lib.Tie, mon *lib.Monitor, drv *lib.Driver)
 	for i := range cases {
 		outs[i] = cases[i].run()
 		if len(outs[i].Raw) > 0 {
-			cases[i].Unmasked = canonAll(outs[i].Raw)
+			if u := canonAll(outs[i].Raw); len(u) > 600 {
+				cases[i].Unmasked = u[:600] + "..."
+			} else {
+				cases[i].Unmasked = u
+			}
 		}
 		if outs[i].Panic == "" && len(outs[i].Got) == len(outs[i].Raw) {
 			for _, raw := range outs[i].Raw {
@@ -620,7 +772,16 @@ func composedCases(g *mt.Gen, perReader int, pullCases int) []ccase {
 			}
 			ms = append(ms, mt.Mask{Paths: ps})
 		}
-		hasPull := r.Build(&mt.Gen{R: lib.NewRand(1)}).Pull != nil
+		probe := r.Build(&mt.Gen{R: lib.NewRand(1)})
+		hasPull := probe.Pull != nil
+		if probe.Stream != nil {
+			// the server-streaming Pull RPC of the same service: its seed values under the mask
+			for i, m := range ms {
+				if i < 2 || i%3 == int(g.R.Intn(3)) || len(m.Paths) > 1 {
+					out = append(out, ccase{Reader: r.Name, Mode: "seeds", SetupSeed: seed(), Mask: m})
+				}
+			}
+		}
 		if hasPull {
 			for i, m := range ms {
 				if i >= pullCases {
@@ -635,8 +796,11 @@ func composedCases(g *mt.Gen, perReader int, pullCases int) []ccase {
 			}
 			continue
 		}
-		for _, m := range ms {
-			out = append(out, ccase{Reader: r.Name, Mode: "read", SetupSeed: seed(), Mask: m})
+		// every mask on two differently populated instances
+		for rep := 0; rep < 2; rep++ {
+			for _, m := range ms {
+				out = append(out, ccase{Reader: r.Name, Mode: "read", SetupSeed: seed(), Mask: m})
+			}
 		}
 	}
 	return out
